@@ -119,6 +119,8 @@ def dtype_of(t):
 
 
 # --------------------------------------------------------------------------- helpers
+STRICT_BOUNDS = True  # concrete arrays refuse out-of-range reads (model runs); contract evaluation relaxes it
+
 
 
 def _ikey(i):
@@ -563,7 +565,9 @@ def from_values(vals, kind="f", unit=None):
     def elem(i):
         if isinstance(i, int):
             if not 0 <= i < n:
-                raise IndexError("model: concrete index %d out of range %d" % (i, n))
+                if STRICT_BOUNDS:
+                    raise IndexError("model: concrete index %d out of range %d" % (i, n))
+                return (False, False) if kind == "b" else (False, 0)  # contract evaluation: guarded by the clause
             return ps[i]
         c = alg.as_concrete(i)
         if c is not None:
@@ -612,6 +616,8 @@ def cast_arr(a, kind, unit=None):
         if kind == "f":
             if sk == "b":
                 return (False, alg.ite(v, 1, 0))
+            if sk in ("m", "M"):
+                return (False, alg.ite(nan, -(2**63), alg.to_real(v) if alg.is_sym(v) else v))
             return (nan, alg.to_real(v) if alg.is_sym(v) else v)
         if kind in ("i", "u"):
             if sk == "b":
@@ -848,6 +854,8 @@ def _as_bool_index(idx):
     """boolean index array -> Arr('b') of the positions written (MaskedArray index: its data)"""
     if isinstance(idx, MArr):
         idx = idx._data
+    if hasattr(idx, "__pyvc_array__"):
+        idx = idx.__pyvc_array__()
     if isinstance(idx, Arr) and idx.kind == "b":
         return idx
     return None
